@@ -176,3 +176,113 @@ def filter_inverse(ctx):
             ctx.ok(key, r[2].loc(r[3]), 'reader and writer use BCJFilter::%s with is_encoder = false / true' % r[0])
     if n == 0:
         ctx.anchor_missing('BCJ / Delta twins')
+
+
+# --------------------------------------------------------------------------- SCAN-COVERAGE
+
+def _eval_int(e, env):
+    """Evaluate a provenance expression over integers; `env(e)` supplies leaves. None = unknown."""
+    v = env(e)
+    if v is not None:
+        return v
+    if not isinstance(e, tuple):
+        return None
+    if e[0] == 'const' and isinstance(e[2], int):
+        return e[2]
+    if e[0] == 'cast':
+        return _eval_int(e[-1], env)
+    if e[0] == 'field' and isinstance(e[1], tuple) and e[1][0] == 'bin' and e[1][1].endswith('WithOverflow') and str(e[2]) == '0':
+        return _eval_int(('bin', e[1][1][:-len('WithOverflow')], e[1][2], e[1][3]), env)
+    if e[0] == 'bin':
+        a, b = _eval_int(e[2], env), _eval_int(e[3], env)
+        if a is None or b is None:
+            return None
+        op = e[1]
+        if op == 'Add': return a + b
+        if op == 'Sub': return a - b
+        if op == 'Mul': return a * b
+        return None
+    if e[0] == 'call' and last_seg(e[1]) in ('saturating_sub',) and len(e[2]) == 2:
+        a, b = _eval_int(e[2][0], env), _eval_int(e[2][1], env)
+        return None if a is None or b is None else max(0, a - b)
+    return None
+
+
+@rule('SCAN-COVERAGE', ['C11'], floor=8)
+def scan_coverage(ctx):
+    """Every BCJ conversion routine examines every position at which a whole instruction still fits in the
+    buffer (the reference filters do; bytes that are left over are only those too short for one instruction,
+    and at the end of the stream they are passed through unconverted). Stated belief vs. use: each routine
+    returns early for `len < W`, i.e. it holds that W bytes are enough for one instruction; its scan loop must
+    therefore be entered for a buffer of exactly W bytes (guard true for i = 0, len = W). A guard that is
+    false there (`i < len - W`) silently skips the last instruction slot of every buffer - and of the stream."""
+    F = ctx.facts
+    n = 0
+    for f in F.fns:
+        if not (f.key.startswith('BCJFilter::') and f.key.endswith('_code')):
+            continue
+        n += 1
+        key = '%s:last-slot-scanned' % f.key
+        prov = Prov(f)
+        loops = f.loops()
+        if not loops:
+            ctx.violation(key, f.loc(0), 'no scan loop found')
+            continue
+        # early return: a switch outside loops on `len(buf) < W`
+        w0 = None
+        for b in sorted(f.reachable):
+            t = f.blocks[b]['term']
+            if t['k'] != 'switch' or f.in_loop(b):
+                continue
+            c = norm_cmp(prov.operand(t['discr'], 0, '%d:T' % b))
+            if c and c[0] == 'Lt' and c[1][0] == 'call' and last_seg(c[1][1]) == 'len' and c[2][0] == 'const' and isinstance(c[2][2], int):
+                w0 = c[2][2]
+                break
+        if w0 is None:
+            ctx.violation(key, f.loc(0), 'no early return of the form `len < W` found: cannot tell the instruction size the routine assumes')
+            continue
+        h = max(loops, key=lambda x: len(loops[x]))
+        body = loops[h]
+        guard = None
+        for b in sorted(body):
+            t = f.blocks[b]['term']
+            if t['k'] != 'switch':
+                continue
+            se = switch_edges(f, b)
+            if not se or (se[0] in body) == (se[1] in body):
+                continue
+            e = prov.operand(t['discr'], 0, '%d:T' % b)
+            c = norm_cmp(e)
+            if c and any(x[0] == 'call' and last_seg(x[1]) == 'len' for x in expr_walk(e)):
+                guard = (b, c, se[1] in body)
+                break
+        if guard is None:
+            ctx.violation(key, f.loc(h), 'scan loop has no exit test against the buffer length')
+            continue
+        b, c, true_stays = guard
+
+        def env(e):
+            if isinstance(e, tuple) and e[0] == 'call' and last_seg(e[1]) == 'len':
+                return w0
+            if isinstance(e, tuple) and e[0] == 'local':
+                # the scan index: value at loop entry; every store to it outside the loop must be the constant 0
+                inits = [s for bi in f.reachable if bi not in body for s in f.blocks[bi]['stmts']
+                         if s['k'] == 'assign' and s['lhs']['l'] == e[1] and not s['lhs']['p']]
+                if inits and all(s['rv']['r'] == 'use' and (op_const(s['rv']['o']) or {}).get('v') == 0 for s in inits):
+                    return 0
+            return None
+        l, r = _eval_int(c[1], env), _eval_int(c[2], env)
+        if l is None or r is None:
+            ctx.info(key, f.loc(b), 'loop guard %s not evaluable at i = 0, len = %d (not decided)' % (expr_str(('bin', c[0], c[1], c[2])), w0))
+            ctx.violation(key, f.loc(b), 'loop guard is not of a form this rule can evaluate at the boundary len = %d' % w0)
+            continue
+        val = {'Lt': l < r, 'Le': l <= r, 'Eq': l == r, 'Ne': l != r}[c[0]]
+        entered = val if true_stays else not val
+        if entered:
+            ctx.ok(key, f.loc(b), 'returns early for len < %d and the scan loop is entered for len = %d (guard %s %s %s at i = 0)' % (w0, w0, l, c[0], r))
+        else:
+            ctx.violation(key, f.loc(b), 'the routine returns early only for len < %d, but its scan loop is not entered for a buffer of exactly %d bytes '
+                          '(guard %s %s %s at i = 0): the last instruction slot of every buffer, and an instruction that ends the stream, '
+                          'is never converted - output differs from the reference filter' % (w0, w0, l, c[0], r))
+    if not n:
+        ctx.anchor_missing('BCJFilter::*_code')
